@@ -122,8 +122,22 @@ def match_close(s, i):
     raise LostAnchor("unbalanced bracket at %d" % i)
 
 
+_MASKS = {}
+
+
 def code_mask(s):
     """bytearray: 1 where the character is code (not comment/string/char literal)."""
+    k = (len(s), hash(s))
+    if k in _MASKS and _MASKS[k][0] is s or (k in _MASKS and _MASKS[k][0] == s):
+        return _MASKS[k][1]
+    m = _code_mask(s)
+    if len(_MASKS) > 64:
+        _MASKS.clear()
+    _MASKS[k] = (s, m)
+    return m
+
+
+def _code_mask(s):
     m = bytearray(len(s))
     for kind, a, b in tokens(s):
         if kind == 'c':
